@@ -10,7 +10,7 @@ PID = "C08"
 def replay(obj):
     if obj.get("kind") != "c08-sense":
         return False, "replay names a broken obligation, not an input: %s" % obj.get("what")
-    r = vlib.run_impl("corr/sense.py", [obj["sense"]], args=["--impl"])[0]
+    r = vlib.run_impl("corr/sense.py", [obj["sense"]] + list(obj.get("followers", [])), args=["--impl"])[0]
     why = corr_sense.oracle(obj["sense"], r)
     return why is None, ("on the implementation: %s" % (why or "constructed, described and printed; positions right"))
 
@@ -24,7 +24,7 @@ def run(rep, tier, seed, summary):
     bad, cases, results = corr_sense.run(rep, tier, seed)
     known = {k["id"]: k for k in vlib.load_known() if k.get("property") == PID and k.get("status") == "known"}
     hits, seen = [], set()
-    for s, r in zip(cases, results or []):
+    for i, (s, r) in enumerate(zip(cases, results or [])):
         why = corr_sense.oracle(s, r)
         if why:
             sig = re.sub(r"\(.*?\)|0x[0-9a-fA-F]+|\d+", "N", why)
@@ -35,6 +35,14 @@ def run(rep, tier, seed, summary):
             seen.add(key)
             hits.append(dict(kind="c08-sense", id="%s [response code %s]" % (sig, key[1] if key[1] == "other" else hex(key[1])),
                              sense=s, observed=why))
+            if "later sense buffers" in why or "once other sense" in why:
+                # needs the buffers that were decoded afterwards: keep the shortest suffix that reproduces it
+                for n in (1, 2, 4, 8, 32, len(cases)):
+                    fol = cases[i + 1:i + 1 + n]
+                    rr = vlib.run_impl("corr/sense.py", [s] + fol, args=["--impl"])[0]
+                    if corr_sense.oracle(s, rr):
+                        hits[-1]["followers"] = fol
+                        break
     new = [h for h in hits if h["id"] not in known]
     for h in hits:
         if h["id"] in known:
